@@ -21,7 +21,9 @@ PROPS = ("C03", "C04")
 
 KEYS = ["TITLE", "ARTIST", "BPMS", "STOPS", "FREEZES", "ATTACKS", "DISPLAYBPM", "BGCHANGES",
         "ANIMATIONS", "OFFSET", "CREDIT", "X", "FOO", "MUSIC", "BANNER", "NOTES2", "VERSION2",
-        "XVERSION", "ATTACKS2", "ATTAC\u212aS"]
+        "XVERSION", "ATTACKS2", "ATTAC\u212aS",
+        # keys whose upper() is longer than the key / not in a Unicode normal form
+        "\u0390", "T\u03b0", "\u1fd2A", "stra\u00dfe", "\ufb01x", "\u0149"]
 CHART_KEYS = ["STEPSTYPE", "DESCRIPTION", "DIFFICULTY", "METER", "RADARVALUES", "CREDIT", "ATTACKS",
               "DISPLAYBPM", "BPMS", "CHARTNAME", "X", "NOTESKIN", "NOTES3", "NOTESCOUNT", "XNOTES",
               "NOTEDATA2"]
@@ -47,7 +49,9 @@ def _val(rng):
     if r < 0.15:
         return ""
     pool = ["a", "B", "0", "1", " ", "=", ",", ".", "\\:", "\\;", "\\\\", "\\#", "\\/", "#", "/",
-            "\n", "\r\n", "\t", "\u00e9", "\u3042", "x//c\n", "\\//"]
+            "\n", "\r\n", "\t", "\u00e9", "\u3042", "x//c\n", "\\//",
+            # text that is not in a Unicode normal form, also reached through an escape
+            "e\u0301", "e\\\u0301", "\u0301", "\u212b", "\u2126", "\u1100\u1161", "\ufb01"]
     n = rng.randint(1, 7)
     return "".join(rng.choice(pool) for _ in range(n))
 
